@@ -67,6 +67,7 @@ type LinEnv struct {
 	StableField func(fn *ssa.Function, f *types.Var) bool
 	// ForwardLoad: the value a field load is known to yield (the single dominating store of the function).
 	ForwardLoad func(load *ssa.UnOp) (ssa.Value, bool)
+	nest        int
 }
 
 func (e *LinEnv) fwd(v ssa.Value) ssa.Value {
@@ -354,11 +355,14 @@ func (e *LinEnv) lbOf(v ssa.Value, at *ssa.BasicBlock, assume map[*ssa.Phi]bool,
 				}
 			}
 			lb := e.lbOf(lf.v, lf.at, as, depth+1)
-			if lb < 0 && depth < 4 && len(assume) == 0 {
-				// the comparisons on the way to this edge may give what intervals cannot (end -= 2 behind `end < 2`)
+			if lb < 0 && depth < 4 && len(assume) == 0 && e.nest == 0 {
+				// the comparisons on the way to this edge may give what intervals cannot (end -= 2 behind `end < 2`);
+				// not re-entered: the proof below bounds its terms through lbOf again
+				e.nest++
 				if e.ProveLE0(linConst(0).addScaled(l, -1), lf.at) {
 					lb = 0
 				}
+				e.nest--
 			}
 			if lb < m {
 				m = lb
